@@ -204,9 +204,10 @@ def misc(rep, tier):
         keep = bytes(data)
         args = dict(sr=10, sw=2, ch=1, analysis_window=0.1, **kw)
         ref = [(r.data, r.start, r.end) for r in core.split(data, **args)]
-        for kind in ("bytes", "region", "recorder", "recorder_hop"):
+        for kind in ("bytes", "region", "recorder", "recorder_hop", "recorder_mr_beyond", "recorder_mr_inside", "record_flag_mr_beyond"):
             rep.add("evaluations")
             outs = []
+            ref_here = ref
             try:
                 if kind == "bytes":
                     for _ in range(3):
@@ -218,20 +219,30 @@ def misc(rep, tier):
                     if reg.data != keep:
                         rep.violation("split mutated region %s %r" % (p, kw), "region altered by split", {"kind": "misc"})
                 else:
-                    rec = util.Recorder(data, block_dur=0.1, sr=10, sw=2, ch=1)
+                    # a max_read beyond the end of the audio changes nothing; one inside it means the first round(t*rate) samples
+                    mr = None if "_mr_" not in kind else (len(data) / 20 + 0.35 if kind.endswith("beyond") else max(0.1, len(data) / 20 - 0.2))
+                    if kind == "record_flag_mr_beyond":
+                        rec = util.AudioReader(data, block_dur=0.1, sr=10, sw=2, ch=1, record=True, max_read=mr)
+                    else:
+                        rec = util.Recorder(data, block_dur=0.1, sr=10, sw=2, ch=1, max_read=mr)
+                    if kind.endswith("inside"):
+                        keep_ = keep[: 2 * round(mr * 10)]
+                        ref_here = [(r.data, r.start, r.end) for r in core.split(keep_, **args)]
+                    else:
+                        keep_ = keep
                     for i in range(3):
                         outs.append([(r.data, r.start, r.end) for r in core.split(rec, **kw)])
                         rec.rewind()
-                        if rec.data != keep:
+                        if rec.data != keep_:
                             rep.violation("recorder data %s %r" % (p, kw), "recorded data differs from the input after split #%d" % (i + 1),
                                           {"kind": "misc"})
                 if data != keep:
                     rep.violation("split mutated bytes %s" % p, "input altered", {"kind": "misc"})
-                if any(o != ref for o in outs):
+                if any(o != ref_here for o in outs):
                     rep.violation("repeat split kind=%s pattern=%s kw=%r" % (kind, p, sorted(kw.items())),
                                   "repeated split of the same %s gives %r then %r (reference %r)" % (
                                       kind, [[(s, e) for _, s, e in o] for o in outs[:1]],
-                                      [[(s, e) for _, s, e in o] for o in outs[1:]], [(s, e) for _, s, e in ref]),
+                                      [[(s, e) for _, s, e in o] for o in outs[1:]], [(s, e) for _, s, e in ref_here]),
                                   {"kind": "misc"})
                 elif ref:
                     rep.add("distinct_nontrivial")
@@ -289,6 +300,8 @@ def misc(rep, tier):
     import numpy as np
     from auditok import signal as _sig
 
+    ST_ = _auditok()["ST"]
+
     for ch in (1, 2):
         for loud in (True, False):
             w = ((b"\x10\x27" if loud else b"\x01\x00") * ch) * 4
@@ -307,6 +320,45 @@ def misc(rep, tier):
                     rep.violation("verdict after array edit how=%s ch=%d loud=%s" % (how, ch, loud),
                                   "after an array made from equal bytes (%s) was edited in place, the window is judged %r, before %r" % (how, got, want),
                                   {"kind": "misc"})
+    # the energy function itself, given the caller's own array / list more than once: same value, operand untouched
+    for mk in (lambda: np.array([[3.0, -4.0, 100.0, 7.0]]), lambda: np.array([3.0, -4.0, 100.0, 7.0]),
+               lambda: np.array([[3, -4, 100, 7], [1, 1, 1, 1]], dtype=np.int16), lambda: np.array([[0.5, 0.25], [8.0, -8.0]], dtype=np.float64),
+               lambda: np.array([1000.0, -1000.0], dtype=np.float32), lambda: [[3.0, -4.0, 100.0, 7.0]]):
+        for agg in (None, max):
+            w = mk()
+            if agg is not None and np.asarray(w).ndim < 2:
+                continue  # an aggregation function applies to per-channel energies only
+            rep.add("evaluations")
+            before = np.array(w, copy=True)
+            try:
+                vals = [np.asarray(_sig.calculate_energy(w, agg)).tolist() for _ in range(3)]
+                same = vals[0] == vals[1] == vals[2] and np.array_equal(np.asarray(w), before)
+                msg = None if same else "three evaluations of the same window give %r; the window is now %r (was %r)" % (vals, np.asarray(w).tolist(), before.tolist())
+            except Exception as exc:
+                msg = "raised %r" % (exc,)
+            if msg:
+                rep.violation("calculate_energy repeated dtype=%s agg=%s" % (getattr(before, "dtype", None), getattr(agg, "__name__", None)), msg, {"kind": "misc"})
+    # a string data source given another string with set_data(): the reused tokenizer AND the reused source behave as new ones
+    from auditok.util import StringDataSource
+
+    UP = _auditok()["Upper"]
+    strings = ["", "A", "aA", "AAa", "aAAaA", "AAAAAAA", "aAaAaAaAa"]
+    for params in [(1, 3, 1, 0, 0, 0), (2, 4, 0, 0, 0, 4)]:
+        for s1, s2 in itertools.product(strings, repeat=2):
+            rep.add("evaluations")
+            try:
+                tok = ST_(UP(), *params)
+                src = StringDataSource(s1)
+                tok.tokenize(src)
+                src.set_data(s2)
+                got = tok.tokenize(src)
+                fresh = ST_(UP(), *params).tokenize(StringDataSource(s2))
+                msg = None if got == fresh else "gives %r, a fresh source and tokenizer %r" % (got, fresh)
+            except Exception as exc:
+                msg = "raised %r" % (exc,)
+            if msg:
+                rep.violation("string source reused %r -> %r tuple=%s" % (s1, s2, params), "source first holding %r then given %r with set_data(): %s" % (s1, s2, msg),
+                              {"kind": "misc"})
     # deep histories: a verdict repeated after hundreds / thousands of other distinct windows
     for nbetween in (130, 300, 520, 700, 1100, 2100):
         for thr, ch in ((50, 1), (50, 2)):
